@@ -10,16 +10,20 @@
 From PB Require Import Common Params Fdl FdlProofs FdlStepProofs C15Proofs C13Proofs.
 
 (* Once the hold time of the visit is over and the guaranteed message cycle is done, no application is
-   asked, nothing is transmitted and the station proceeds to pass the token - for all states of the
-   remaining fields, all applications and all worlds. *)
+   asked and the station passes the token IN THE SAME POLL (F20 repair, active.rs do_use_token: the rest
+   of the poll is do_pass_token from PassToken{do_gap: Yes, First}: the GAP request or the token goes out,
+   see C12_visit_performs_gap_step) - for all states of the remaining fields, all applications and all
+   worlds.  Last conjunct: whatever the outcome, no application was asked and the list is untouched. *)
 Theorem C13_hold_over_passes : forall (A : Type) (ops : app_ops A) (f : fdl) (w : world A) (now tk : Z)
                                       (fa : option nat) (l : Z),
   f_state f = UseToken tk fa true -> f_last_token_time f = tk -> f_lba f = Some l ->
   i64_ok (l + p_bits_to_time (f_p f) sync_pause_bits) = true ->
   l + p_bits_to_time (f_p f) sync_pause_bits < now ->
   f_end_tht f <= now ->
-  exists w', do_use_token A ops f now w = Ok (set_st f (PassToken true first_attempt), w') /\
-             w_calls w' = w_calls w /\ w_tx w' = w_tx w /\ w_apps w' = w_apps w.
+  exists w1, do_use_token A ops f now w = do_pass_token A (set_st f (PassToken true first_attempt)) now w1 /\
+             w_calls w1 = w_calls w /\ w_tx w1 = w_tx w /\ w_apps w1 = w_apps w /\
+             forall f' w', do_use_token A ops f now w = Ok (f', w') ->
+                           w_calls w' = w_calls w /\ w_apps w' = w_apps w.
 Proof. exact do_use_token_hold_over. Qed.
 Print Assumptions C13_hold_over_passes.
 
@@ -57,7 +61,10 @@ Print Assumptions C13_hold_rule_poll.
 (* The deadline as coded (active.rs:1172-1182): do_use_token computes it once per visit - when
    last_token_time differs from the token time of the visit - as previous token time + TTR, minus
    Tslot + 100 bit when a GAP poll is due (gap_reserve); afterwards last_token_time is the token time of
-   the visit and the deadline stays.  Third conjunct: the state do_use_token leaves. *)
+   the visit and the deadline stays.  Third conjunct: the state do_use_token leaves; its last case
+   (passed_on) is what do_pass_token leaves when do_use_token found nothing (more) to send and went on
+   to pass the token in the same poll (F20 repair): a token-passing state, or the first state of the next
+   visit when the station is its own successor. *)
 Theorem C13_deadline_as_coded : forall (A : Type) (ops : app_ops A) (f : fdl) (now : Z) (w : world A)
     (f' : fdl) (w' : world A) (tk : Z) (fa : option nat) (fcd : bool),
   do_use_token A ops f now w = Ok (f', w') -> f_state f = UseToken tk fa fcd ->
@@ -69,7 +76,7 @@ Theorem C13_deadline_as_coded : forall (A : Type) (ops : app_ops A) (f : fdl) (n
   ((f_state f' = f_state f /\ w_calls w' = w_calls w) \/
    (exists fa', f_state f' = UseToken tk fa' true) \/
    (exists a fa', f_state f' = AwaitDataResponse a tk fa') \/
-   f_state f' = PassToken true first_attempt).
+   (pass_kind (kind_of (f_state f')) = true \/ f_state f' = UseToken now None false)).
 Proof. exact do_use_token_state. Qed.
 Print Assumptions C13_deadline_as_coded.
 
@@ -94,7 +101,8 @@ Print Assumptions C13_visit_bounded_from_any_state.
 
 (* C13_one_gap_poll_per_visit (acceptor gpre / gpost): after a visit the station enters
    AwaitStatusResponse - which, by C12_pass_token_polls_in_gap, happens exactly when do_pass_token has
-   sent one GAP request - at most once before the next visit, and only from PassToken.  (The time for this
+   sent one GAP request - at most once before the next visit, and only in the poll that ends the visit
+   (from a token-use state, F20 repair) or from PassToken.  (The time for this
    one request is what the GAP reserve of C13_deadline_as_coded sets aside when the GAP cursor is in a
    sweep; the first request of a sweep, started when the wait counter expires in do_pass_token, is not
    reserved for - as coded.) *)
